@@ -60,6 +60,10 @@ macro_rules! dispatch {
                 type $p = props::c14::C14;
                 $body
             }
+            "C15" => {
+                type $p = props::c15::C15;
+                $body
+            }
             "C16" => {
                 type $p = props::c16::C16;
                 $body
